@@ -4,6 +4,7 @@ package props
 
 import (
 	"fmt"
+	"os/exec"
 	"strconv"
 	"strings"
 
@@ -48,6 +49,56 @@ var versionImpl = map[string]core.Adapter{
 		y := version.Version{Version: core.MustUnHex(a[1])}
 		return strconv.Itoa(sgn(version.Compare(x, y)))
 	},
+}
+
+func init() {
+	// the real dpkg as an independent opinion on the specification (not on the library)
+	versionImpl["verfull"] = func(a []string) string {
+		x, y := core.MustUnHex(a[0]), core.MustUnHex(a[1])
+		run := func(op string) bool {
+			return exec.Command("dpkg", "--compare-versions", x, op, y).Run() == nil
+		}
+		switch {
+		case run("lt"):
+			return "-1"
+		case run("eq"):
+			return "0"
+		case run("gt"):
+			return "1"
+		}
+		return "err"
+	}
+}
+
+func streamDpkg(g *core.G) {
+	r := g.R
+	for i := g.N(150, 20000); i > 0; i-- {
+		e, u, rv, hr := genWFVersion(r)
+		if len(e) > 9 {
+			e = "7" // dpkg limits the epoch to INT_MAX
+		}
+		a := renderWF(e, u, rv, hr)
+		b := a
+		switch r.Intn(4) {
+		case 0:
+			b = renderWF(e, mutateComponent(r, u, "0123456789abzAZ.+~"), rv, hr)
+		case 1:
+			b = renderWF(e, u, strings.ReplaceAll(mutateComponent(r, rv, "0123456789abzAZ.+~"), "-", ""), true)
+		case 2:
+			e2, u2, r2, h2 := genWFVersion(r)
+			if len(e2) > 9 {
+				e2 = ""
+			}
+			b = renderWF(e2, u2, r2, h2)
+		}
+		if _, err := version.Parse(b); err != nil {
+			continue
+		}
+		if _, err := version.Parse(a); err != nil {
+			continue
+		}
+		g.Emit("verfull", core.Hex(a), core.Hex(b))
+	}
 }
 
 func versionReadable(op string, a []string) string {
@@ -190,7 +241,7 @@ func init() {
 		TieTheorems: []string{"GoDebian.Tie.Version.order_eq", "GoDebian.Tie.Version.cisdigit_eq", "GoDebian.Tie.Version.cisalpha_eq"},
 		Facts: []string{"version.order:translated", "version.cisdigit:translated", "version.cisalpha:translated",
 			"fingerprint:version.verrevcmp", "fingerprint:version.Compare", "fingerprint:version.order"},
-		Streams: []core.Stream{{Name: "vercmp", Gen: streamVercmp,
+		Streams: []core.Stream{{Name: "dpkg", Gen: streamDpkg, Domain: "support, not proof: the real `dpkg --compare-versions` against the Lean specification Spec.Version.compare on well-formed version pairs (validates the reading of Policy 5.6.12 the theorems are stated against)"}, {Name: "vercmp", Gen: streamVercmp,
 			Domain: "pairs of versions over the parser's alphabet [A-Za-z0-9.+~:-]: common prefix plus one edit (digit-run extension, leading zeros, letter/punctuation swap, tilde, early end, revision-only and epoch-only differences), random components, digit runs up to 40 digits; observable: sign of Compare; thorough adds all pairs of strings of length <= 3 over {0,1,9,a,Z,~,+,.,-}"}},
 		Impl:     versionImpl,
 		Readable: versionReadable,
